@@ -424,7 +424,7 @@ func ruleRootRegistered(c *Ctx) {
 		}
 		underNil := false
 		for _, cl := range c.literalsAt(fd, rs) {
-			if be, ok := unparen(cl.e).(*ast.BinaryExpr); ok && be.Op == token.EQL && !cl.neg && isNilIdent(c, be.Y) {
+			if be, ok := unparen(cl.e).(*ast.BinaryExpr); ok && (be.Op == token.EQL && !cl.neg || be.Op == token.NEQ && cl.neg) && isNilIdent(c, be.Y) {
 				if id, ok := unparen(be.X).(*ast.Ident); ok && c.objOf(id) == root {
 					underNil = true
 				}
